@@ -5,6 +5,7 @@ import (
 	"errors"
 	"fmt"
 	"reflect"
+	"sync/atomic"
 	"time"
 
 	"github.com/karagenc/socket.io-go/internal/sync"
@@ -35,6 +36,10 @@ type serverConn struct {
 
 	closeOnce sync.Once
 	debug     Debugger
+
+	// Set by onClose, before the sockets of the connection are collected.
+	closed      atomic.Bool
+	closeReason atomic.Value
 }
 
 func newServerConn(
@@ -163,6 +168,13 @@ func (c *serverConn) connect(header *parser.PacketHeader, decode parser.Decode) 
 
 	c.sockets.set(socket)
 	c.nsps.set(nsp)
+
+	// The connection may have been closed between the admission of the socket and its
+	// registration above, in which case onClose did not see it. Close it here.
+	if c.closed.Load() {
+		reason, _ := c.closeReason.Load().(Reason)
+		socket.onClose(reason)
+	}
 }
 
 func (c *serverConn) connectError(message any, nsp string) {
@@ -237,6 +249,8 @@ func (c *serverConn) onClose(reason Reason, err error) {
 	// We don't want it to close more than once,
 	// so we use sync.Once to avoid running onClose more than once.
 	c.closeOnce.Do(func() {
+		c.closeReason.Store(reason)
+		c.closed.Store(true)
 		sockets := c.sockets.getAndRemoveAll()
 		for _, socket := range sockets {
 			socket.onClose(reason)
